@@ -58,7 +58,7 @@ def query(ctx, env, cv, r, incl, ret, mode, generic):
     elif k == 2:
         flag = int(incl)
         ctx.count('flag_int')
-    elif k == 3:
+    elif k == 3 and r < 2 ** 31:       # (a numpy integer near its own limit overflows inside numpy: not an int any more)
         rad = np.int64(r)
         ctx.count('radius_numpy_int')
     if k in (4, 5):
@@ -147,6 +147,18 @@ def run_case(ctx, case):
                 if mode == 'moore' and clipped and len(ball) >= 2:
                     ctx.count('clipped_queries', 32)
                     ctx.distinct((tuple(case['ext']), case['cls'], c, r))
+            if r == 1 and ci % 2 == 0:
+                # a radius that stands for 'everything' (sys.maxsize is the library's own idiom for unbounded; larger ints are ints too)
+                import sys as _sys
+                for huge in (_sys.maxsize, 2 ** 70):
+                    for rep_, cv_ in centres[:3]:
+                        for mode_ in ('moore', 'neumann'):
+                            got_ = query(ctx, env, cv_, huge, ci % 4 == 0, int, mode_, rep_ == 'tuple')
+                            exp_ = [index[p] for p in table if ci % 4 == 0 or p != c]
+                            ctx.count('queries_with_an_unbounded_radius')
+                            if got_ != exp_:
+                                raise CaseViolation(f'{mode_} neighbourhood of {c} with radius {huge} (everything) centre-as-{rep_} differs from the whole grid',
+                                                    shape=case, expected=exp_[:12], observed=got_[:12] if isinstance(got_, list) else got_)
             # default arguments: radius 1, centre excluded, ids
             if r == 1:
                 check(env.get_moore_neighbours(c) == [index[p] for p in cheb if p != c], 'default-argument Moore query differs', shape=case, centre=c)
